@@ -409,6 +409,42 @@ class C18(Spec):
                  "cases": r["tried"], "failures": r["failures"], "replay_kind": "hist", "label": "bounded (not counted as proof)"}]
 
 
+class C04(Spec):
+    pid = "C04"
+    level = "proof"
+    design_ref = "DESIGN.md section 8 C04"
+    trusted = [
+        "max(iterable, key=) / min(iterable, key=) return an element of their non-empty argument (assumed contract of the built-ins); itertools.chain concatenates",
+        "error objects in best_match are an abstract model (membership in the context closure, context emptiness, context-tree height); the real ValidationError fields are handled in create_from/_contents",
+        "repeatability: the entry points are functions of (schema, instance) in the encoding and modify nothing observable (C07), hence repeating a call gives identical results",
+    ]
+    assumptions = ["module validate is verified with cls given explicitly and with cls taken from validator_for (whose contract is C20's)",
+                   "check_schema's callee contract is exactly check_schema(schema)"]
+    explanation = "is_valid is proved equal to emptiness of iter_errors, validate() to raise exactly its first error, module validate() to call check_schema first (SchemaError before the validator exists), then raise best_match(iter_errors) iff non-empty; best_match is proved to return None iff empty and otherwise a context-free member of the context closure (while-loop invariant, decreasing context height); SchemaError.create_from is proved to copy every field."
+
+    def tasks(self, root, tier):
+        from contracts import tasks_entry
+        return tasks_core.core_tasks(root, _tmo(tier), which=("is_valid", "validate")) + tasks_entry.entry_tasks(root, _tmo(tier))
+
+    def select(self, ob, r):
+        return ob["kind"] in ("F", "P", "L", "S")
+
+    def failure_kinds(self):
+        return ("E",)
+
+    def table_obligations(self, repo, tabs):
+        w, _ = write_frame_obligations(repo, tabs, ["exceptions:best_match", "exceptions:by_relevance.relevance", "validators:validate",
+                                                    "validators:create.Validator.check_schema", "exceptions:_Error.create_from", "exceptions:_Error._contents"],
+                                       VALIDATION_WRITES + [("exceptions:_Error.__init__", "*")], "entry points")
+        return [r for r in w if not r["name"].startswith("frames/")]
+
+    def standins(self, root, tier):
+        from pyvc import driver
+        r = driver.rt_call("pyvc.rt_entry", {"cmd": "search", "root": root}, root, timeout=3000)
+        return [{"name": "entry-point-agreement", "scope": "12 keywords x half of the 80-value pool x a third of the instance pool x 4 drafts, plus nested anyOf/oneOf/false-schema cases and invalid schemas, with and without format checker; all four entry points, repeated calls",
+                 "cases": r["tried"], "failures": r["failures"], "replay_kind": "entry", "label": "bounded (not counted as proof)"}]
+
+
 class C08(Spec):
     pid = "C08"
     level = "proof"
@@ -441,4 +477,4 @@ class C08(Spec):
         return out
 
 
-SPECS = {"C01": C01, "C03": C03, "C05": C05, "C07": C07, "C18": C18, "C06": C06, "C08": C08, "C09": C09, "C10": C10}
+SPECS = {"C01": C01, "C03": C03, "C04": C04, "C05": C05, "C07": C07, "C18": C18, "C06": C06, "C08": C08, "C09": C09, "C10": C10}
